@@ -28,13 +28,22 @@ package alg
 //@   loop 2: invariant true
 //@   loop 2: decreases len(s)
 
-// ---- text of byte sequences for the escaping / validation routines
-//@ pure func htmlSpec(src text) text
+// ---- HtmlEscape: restart loop around native html_escape.
+//@ pure func htmlSpec(src text) text = native.htmlSpec(src)
 
-// HtmlEscape (ownership part, C06): the result lives in dst's array or in a new
-// one; src is not written; nothing is pooled.  (Functional part: C20.)
-//@ func HtmlEscape assumed "restart loop around native html_escape; ownership facts only (loop not yet under contract)"
+// C05: every (pointer, length) frame handed to the native routine lies inside src /
+// the spare capacity of dst.  C20: the result is dst ++ htmlSpec(src) whatever the
+// number of "output full" restarts; the destination prefix is preserved.  C06: the
+// result lives in dst's array or a new one.  No panic (GrowSlice's newCap >= len).
+//@ func HtmlEscape props C05,C06,C20
+//@   requires len(src) <= 35184372088832 && len(dst) <= 35184372088832 && (base(dst) != base(src) || len(src) == 0)
 //@   modifies dst[_]
 //@   ensures base(result) == base(dst) || fresh(result)
 //@   ensures base(result) != 0
-//@   ensures len(dst) == 0 ==> txt(result) == htmlSpec(txt(src))
+//@   ensures len(result) >= len(dst)
+//@   ensures forall j int :: (0 <= j && j < len(dst)) ==> result[j] == old(dst[j])
+//@   loop 0: invariant 0 <= sidx && sidx <= len(src) && same(src, src0) && len(src) <= 35184372088832
+//@   loop 0: invariant len(dst0) <= len(dst) && base(dst) != 0 && (base(dst) == base(dst0) || fresh(dst)) && cap(dst) - len(dst) >= 1
+//@   loop 0: invariant forall j int :: (0 <= j && j < len(dst0)) ==> dst[j] == old(dst0[j])
+//@   loop 0: invariant (base(dst) == pre(base(dst)) || newer(dst))
+//@   loop 0: modifies dst, dst[_]
